@@ -36,11 +36,11 @@ K2_TIE = 1 | 64 | 128
 
 
 def run(ctx):
-    pr, obligations, discharged = vlib.proof_stage(ctx, ["theories/Corr/C05.vo"])
+    pr, obligations, discharged = vlib.proof_stage(ctx, ["theories/Corr/C05.vo", "theories/Dash/DashExamples.vo"])
     if pr["broken"] or not pr["ok"]:
         ctx.violation(dict(kind="proof-obligation-broken", theorem_or_file=pr["broken"], bad_axioms=pr["bad_axioms"], log=pr["log"][-2000:]),
                       "proof obligation no longer checks: %s" % (pr["broken"] or pr["bad_axioms"]), found_input=False)
-    ncases = ctx.n(4000, 240000)
+    ncases = ctx.n(4000, 160000)
     args = ["-seed", str(ctx.seed), "-n", str(ncases)]
     if ctx.replay:
         rp = json.load(open(ctx.replay))
